@@ -37,7 +37,26 @@ TParse == /\ l <= Len(Trc) /\ Ev.e = "Parse" /\ l' = l + 1
                                ELSE PrintT(<<"MISMATCH", "stdout differs at byte", FirstDiff(want, Ev.out), "line", l>>) /\ PrintT(<<"WANT", want>>) /\ FALSE)
                            /\ Chk("exit status", (Ev.code # 0) = Fails(Ev.members, o, <<>>))
                    ELSE TRUE
-TSpec == TInit /\ [][TRun \/ TParse]_l
+(* Invoke{args, src, there, why, help, members, now, mtime, totalratio, out, err, code}: one whole invocation of the tool as
+   main() sees it.  args = everything after the program name; src says what the archive was read through ("path", or for
+   the name "-": "redirect" = standard input is the archive file itself, "pipe" = a pipe fed with its bytes, "null" = nothing);
+   there = a file of that name exists; the members are those the archive yields when read from a seekable file - so an
+   accepted line with src # "path" is the statement of C16 at the level of the tool. *)
+TInvoke == /\ l <= Len(Trc) /\ Ev.e = "Invoke" /\ l' = l + 1
+           /\ LET inv == Main(Ev.args) IN
+              IF inv.kind = "usage"
+              THEN /\ Chk("usage page expected", Ev.help /\ HasSub(Ev.out, S_USAGE \o Ev.prog))
+                   /\ Chk("usage: exit status 255", Ev.code = 255)
+              ELSE IF ~Opens(inv, Ev.there)
+              THEN /\ Chk("open failure: nothing on stdout", Ev.out = <<>> /\ ~Ev.help)
+                   /\ Chk("open failure: message on stderr", Ev.err = OpenError(inv, Ev.why))
+                   /\ Chk("open failure: exit status 255", Ev.code = 255)
+              ELSE LET want == MainOutput(inv, Ev.members, [now |-> Ev.now, mtime |-> Ev.mtime, totalratio |-> Ev.totalratio])
+                   IN /\ Chk("no usage page", ~Ev.help)
+                      /\ (IF want = Ev.out THEN TRUE
+                          ELSE PrintT(<<"MISMATCH", "stdout differs at byte", FirstDiff(want, Ev.out), "line", l, "src", Ev.src>>) /\ PrintT(<<"WANT", want>>) /\ FALSE)
+                      /\ Chk("exit status", Ev.code = MainStatus(inv, Ev.members))
+TSpec == TInit /\ [][TRun \/ TParse \/ TInvoke]_l
 Accepted == LET dd == TLCGet("stats").diameter - 1
             IN IF dd = Len(Trc) THEN TRUE ELSE PrintT(<<"REJECTED_AT_LINE", dd + 1>>) /\ FALSE
 ========================================================================================
